@@ -84,7 +84,9 @@ def write_evidence(prop, tier, level, coverage, assumptions, wall_s, violations,
           'assumptions': assumptions, 'wall_s': round(wall_s, 2), 'violations': violations}
     if extra:
         ev.update(extra)
-    d = os.path.join(VERIF, 'evidence')
+    # VERIF_EVIDENCE_DIR: development aid for seeded-change trials on a scratch tree (VERIF_REPO), so that they do not
+    # overwrite the evidence of the real tree; the registered commands never set it
+    d = os.environ.get('VERIF_EVIDENCE_DIR') or os.path.join(VERIF, 'evidence')
     os.makedirs(d, exist_ok=True)
     tmp = os.path.join(d, '%s.json.tmp' % prop)
     with open(tmp, 'w') as f:
